@@ -1148,7 +1148,8 @@ def check_getfilters(ctx, batch, fattrs, pattrs) -> None:
     line = f"getfilters {fa} {pa}"
     batch.add(line, got, {"op": "getfilters"})
     ctx.case(("getfilters", line), True, sample={"op": "getfilters", "line": line[:100]},
-             branch="getfilters:f=%s:p=%s" % ("+".join(k for k, _ in fattrs) or "none", "+".join(k for k, _ in pattrs) or "none"))
+             branch="getfilters:f=%s:p=%s" % ("+".join(sorted(k for k, _ in fattrs)) or "none",
+                                               "+".join(sorted(k for k, _ in pattrs)) or "none"))
 
 
 def gen_getfilters(rng):
